@@ -6,6 +6,7 @@ import PsutilModel.Spec.C17
 import PsutilModel.Spec.C17Ext
 import PsutilModel.Spec.C17Py
 import PsutilModel.Spec.C17R3
+import PsutilModel.Spec.C17Thr
 open Lean Psutil Psutil.Proto Psutil.C17
 
 def jVal : Val → Json
@@ -325,6 +326,22 @@ def handle (_ : Unit) (j : Json) : R (Unit × Json) := do
         return ((), jObj [("model", jObj [("text", Json.str (String.ofList out)), ("fits", Json.bool (out.length + 1 ≤ h.2.1)),
                                             ("size", jInt h.2.1), ("directives", jInt (countStr ps))]),
                           ("spec", Json.null)])
+  else if op == "mt" then
+    -- §24: `files[t]` = mount entries call t reads, `sched` = which thread moves next; then round-robin to completion
+    let fn ← strF j "fn"
+    let fs ← listF (asList parseMnt) j "files"
+    let sched ← listF asNat j "sched"
+    let files : Nat → List Mnt := fun t => fs.getD t []
+    let c := gilCfgOf fn
+    let n := fs.length
+    let fuel := 4 * (fs.foldl (fun a f => a + f.length) 0) + 8 * n + 8
+    let full := sched ++ Thr.rounds n fuel
+    let st := Thr.run c full (Thr.initSt files)
+    let ts := List.range n
+    return ((), jObj [("model", jObj [("rows", jList (fun t => jList jMnt (st.thr t).out) ts),
+                                      ("finished", jList (fun t => Json.bool ((st.thr t).pc == .done)) ts),
+                                      ("relProduce", Json.bool c.relProduce), ("relBetween", Json.bool c.relBetween)]),
+                      ("spec", jObj [("rows", jList (fun t => jList jMnt (Spec.Thr.callResult files t)) ts)])])
   else .error s!"unknown op {op}"
 
 def main : IO Unit := Proto.run () (total handle)
